@@ -264,6 +264,19 @@ Proof.
     rewrite Nnat.N2Nat.id. reflexivity.
 Qed.
 
+(* a hand-built IPNet: same enumeration for prefixes up to 30 whatever host bits the IP field
+   carries; for /31,/32 the IP field itself, which is the network address when it is aligned *)
+Theorem ip_gen_raw_spec ip p : ip < two32 -> 2 <= p <= 32 ->
+  (p <= 30 -> ip_gen_raw ip p = ip_gen ip p) /\
+  (31 <= p -> ip_gen_raw ip p = [ip] /\ (ip mod 2 ^ (32 - p) = 0 -> ip_gen_raw ip p = ip_gen ip p)).
+Proof.
+  intros Hi Hp. unfold ip_gen_raw. split.
+  - intros H. replace (31 <=? p) with false by (symmetry; apply N.leb_gt; lia). reflexivity.
+  - intros H. replace (31 <=? p) with true by (symmetry; apply N.leb_le; lia).
+    replace (p <=? 1) with false by (symmetry; apply N.leb_gt; lia). cbn [andb negb]. split; [reflexivity|].
+    intros Ha. rewrite ip_gen_single by (try assumption; lia). rewrite Ha. f_equal. lia.
+Qed.
+
 (* ---------- the generator as a process: prefix + cancellation ---------- *)
 Definition gen_inv (full : list N) (g : gen) : Prop := sent g ++ todo g = full.
 
